@@ -17,7 +17,8 @@ EXTENDS Integers, Sequences, FiniteSets, TLC
 CONSTANTS
     Resend,         \* 2000 ms between handshake / disconnect resends
     Retries,        \* 10 resends
-    Linger          \* 20000 ms in Closed
+    Linger,         \* 20000 ms in Closed
+    ReAckAnyNonce   \* FALSE = the code as repaired (F13); TRUE = an active client confirms any SYN-ACK echoing its nonce
 
 NoNonce == <<-1, -1>>
 
@@ -44,7 +45,7 @@ CHandle(r, f, t) ==
             IF c.st = "Pending" /\ f.nonce_ack = c.nonce
             THEN [c |-> [c EXCEPT !.st = "Active", !.remote = f.nonce, !.deadline = t + c.T, !.disc = "none"],
                   ev |-> Append(r.ev, "Connect"), out |-> Append(r.out, Ack(f.nonce))]
-            ELSE IF c.st = "Active" /\ f.nonce_ack = c.nonce /\ f.nonce = c.remote
+            ELSE IF c.st = "Active" /\ f.nonce_ack = c.nonce /\ (ReAckAnyNonce \/ f.nonce = c.remote)
             THEN [r EXCEPT !.out = Append(@, Ack(f.nonce))]
             ELSE r
       [] f.ty = "ERR" ->
